@@ -193,10 +193,126 @@ impl W {
     }
 }
 
+/// zlib stream of `data`. Levels 0..=9 are flate2's; 10..=13 select encoders written here (no back-references, so
+/// any declared window size is valid): 10 = stored blocks of irregular sizes (some empty), 11 = fixed-Huffman
+/// literal-only blocks, 12 = a mix of both, 13 = flate2 level 6 with another (informational) FLEVEL in the header.
+/// The own encoders also vary the header's window-size field (CINFO 0..7, i.e. 256 bytes..32 KiB).
 pub fn zlib(data: &[u8], level: u32) -> Vec<u8> {
-    let mut e = ZlibEncoder::new(Vec::new(), Compression::new(level));
-    e.write_all(data).unwrap();
-    e.finish().unwrap()
+    if level <= 9 {
+        let mut e = ZlibEncoder::new(Vec::new(), Compression::new(level));
+        e.write_all(data).unwrap();
+        return e.finish().unwrap();
+    }
+    let adler = adler32(data);
+    let mut r = Rng(mix(adler as u64, data.len() as u64 + level as u64));
+    let header = |cinfo: u32, flevel: u32| -> [u8; 2] {
+        let cmf = (cinfo << 4) | 8;
+        let mut flg = flevel << 6;
+        let rem = (cmf * 256 + flg) % 31;
+        if rem != 0 {
+            flg += 31 - rem;
+        }
+        [cmf as u8, flg as u8]
+    };
+    if level == 13 {
+        let mut z = zlib(data, 6);
+        let h = header(7, r.below(4) as u32);
+        z[0] = h[0];
+        z[1] = h[1];
+        return z;
+    }
+    let mut out = header(r.below(8) as u32, r.below(4) as u32).to_vec();
+    let mut bw = BitWriter { out: vec![], cur: 0, n: 0 };
+    let mut segs: Vec<usize> = vec![];
+    let mut left = data.len();
+    while left > 0 {
+        // now and then an empty block in between
+        if r.chance8(1) {
+            segs.push(0);
+        }
+        let cap = if r.chance8(2) { 9 } else { 700 };
+        let seg = (1 + r.below(cap) as usize).min(left);
+        segs.push(seg);
+        left -= seg;
+    }
+    if segs.is_empty() {
+        segs.push(0);
+    }
+    let mut pos = 0usize;
+    for (k, &seg) in segs.iter().enumerate() {
+        let last = k + 1 == segs.len();
+        let stored = match level {
+            10 => true,
+            11 => false,
+            _ => r.below(2) == 0,
+        };
+        bw.bits(last as u32, 1);
+        if stored {
+            bw.bits(0, 2);
+            bw.align();
+            bw.out.extend_from_slice(&(seg as u16).to_le_bytes());
+            bw.out.extend_from_slice(&(!(seg as u16)).to_le_bytes());
+            bw.out.extend_from_slice(&data[pos..pos + seg]);
+        } else {
+            bw.bits(1, 2);
+            for &b in &data[pos..pos + seg] {
+                if b < 144 {
+                    bw.code(0x30 + b as u32, 8);
+                } else {
+                    bw.code(0x190 + (b as u32 - 144), 9);
+                }
+            }
+            bw.code(0, 7);
+        }
+        pos += seg;
+    }
+    bw.align();
+    out.extend(bw.out);
+    out.extend_from_slice(&adler.to_be_bytes());
+    out
+}
+
+pub fn adler32(data: &[u8]) -> u32 {
+    let (mut a, mut b) = (1u32, 0u32);
+    for &x in data {
+        a = (a + x as u32) % 65521;
+        b = (b + a) % 65521;
+    }
+    (b << 16) | a
+}
+
+struct BitWriter {
+    out: Vec<u8>,
+    cur: u32,
+    n: u32,
+}
+
+impl BitWriter {
+    /// value bits, least significant first (header fields)
+    fn bits(&mut self, v: u32, n: u32) {
+        for i in 0..n {
+            self.cur |= ((v >> i) & 1) << self.n;
+            self.n += 1;
+            if self.n == 8 {
+                self.out.push(self.cur as u8);
+                self.cur = 0;
+                self.n = 0;
+            }
+        }
+    }
+    /// Huffman code, most significant bit first
+    fn code(&mut self, c: u32, n: u32) {
+        for i in (0..n).rev() {
+            self.bits((c >> i) & 1, 1);
+        }
+    }
+    fn align(&mut self) {
+        if self.n > 0 {
+            self.out.push(self.cur as u8);
+            self.cur = 0;
+            self.n = 0;
+        }
+    }
 }
 
 /// Finished chunk (header + payload) with chunk-relative field offsets.
@@ -621,7 +737,7 @@ pub fn encode(s: &Sprite, plan: &Plan) -> Encoded {
                 }
             }
             for t in &s.tilesets {
-                let lvl = cx.rng.below(10) as u32;
+                let lvl = cx.rng.below(if plan.zlevel >= 10 { 14 } else { 10 }) as u32;
                 let w = tileset_chunk(t, lvl, junk!());
                 let c = cx.fin(w);
                 let k = key(&mut cx, None);
@@ -662,7 +778,7 @@ pub fn encode(s: &Sprite, plan: &Plan) -> Encoded {
         }
         for c in &frame.cels {
             let h = mix(plan.seed, ((fi as u64) << 20) ^ (c.layer as u64) ^ 0xCE1);
-            let zl = if plan.zlevel >= 10 { (h >> 8) % 10 } else { plan.zlevel as u64 } as u32;
+            let zl = if plan.zlevel >= 10 { (h >> 8) % 14 } else { plan.zlevel as u64 } as u32;
             let compress = match plan.compress {
                 0 => None,
                 1 => Some(zl),
